@@ -442,6 +442,8 @@ def execute(E, st, ins):
     from vlib.asmx import vsem
     r = vsem.execute(E, st, ins)
     if r is not None:
+        if _SWEEP[0] and o and o[0].kind == 'vec' and not small(st.v[o[0].reg], 150):
+            st.v[o[0].reg] = fresh_like(512, [st.v[o[0].reg]], 'v')     # keep sweep-mode terms bounded
         st.ip = nxt
         return [st]
 
@@ -460,12 +462,20 @@ ZERO_IDIOMS = {'pxor', 'xorps', 'xorpd', 'vpxor', 'vxorps', 'vxorpd', 'vpxord', 
 def source_terms(E, st, ins):
     """values the instruction reads (for taint inheritance of a havoc'd destination)"""
     out = []
+    m = ins.mnem
+    # VEX/EVEX three-operand forms only write operand 0 (unless merge-masked or an accumulate/ternary form)
+    wo = (m.startswith('v') and len(ins.ops) >= 2 and ins.ops[0].kind == 'vec' and not any(x.mask is not None for x in ins.ops)
+          and not m.startswith(('vfm', 'vfnm', 'vpternlog', 'vpmadd52', 'vpdp', 'vpermi2', 'vpermt2', 'vpgather', 'vgather')))
     for k, x in enumerate(ins.ops):
+        if k == 0 and wo:
+            continue
         try:
             if x.kind == 'gpr':
                 out.append(st.r[x.reg])
             elif x.kind == 'vec':
-                out.append(st.v[x.reg])
+                # only the bits the instruction reads: a legacy-SSE/xmm operand does not read the (possibly secret) upper lanes
+                w = x.width or 512
+                out.append(st.v[x.reg] if w >= 512 else _simp(Extract(w - 1, 0, st.v[x.reg])))
             elif x.kind == 'k':
                 out.append(st.k[x.reg])
             elif x.kind == 'mem' and not (k == 0 and ins.mnem.startswith(('mov', 'vmov')) ):
@@ -495,7 +505,11 @@ def havoc_dest(E, st, ins):
         E.putg(st, d, fresh_like(d.width, srcs, 'g'))
         st.flags = 'S' if any(tainted(x) for x in srcs) else None
     elif d.kind == 'vec':
-        st.v[d.reg] = fresh_like(512, srcs, 'v')
+        if E.track_taint and not m.startswith('v') and (d.width or 128) == 128:
+            # legacy SSE keeps bits 511..128 of the destination: keep them (and their tag) apart from the new low lane
+            st.v[d.reg] = _simp(Concat(Extract(511, 128, st.v[d.reg]), fresh_like(128, srcs, 'v')))
+        else:
+            st.v[d.reg] = fresh_like(512, srcs, 'v')
     elif d.kind == 'k':
         st.k[d.reg] = fresh_like(64, srcs, 'k')
     elif d.kind == 'mem':
